@@ -43,7 +43,7 @@ def O(t):
     return ("O", t)
 
 
-Q, Z, N, B, G, U, LIT, ID, FSTR, KSET, SEG, BUF, STR, SHP = "Q", "Z", "N", "B", "G", "U", "LIT", "Id", "F", "K", "Seg", "Buf", "Str", "Shp"
+Q, Z, N, B, G, U, LIT, ID, FSTR, KSET, SEG, BUF, STR, SHP, TAG, OBJ, FNAME = "Q", "Z", "N", "B", "G", "U", "LIT", "Id", "F", "K", "Seg", "Buf", "Str", "Shp", "Tag", "Obj", "Fname"
 
 
 def coq_type(t) -> str:
@@ -71,6 +71,16 @@ def coq_type(t) -> str:
         return "buffered"
     if t == SHP:
         return "shp"
+    if t == TAG:
+        return "tag"
+    if t == OBJ:
+        return "Z"
+    if t == FNAME:
+        return "fname"
+    if isinstance(t, tuple) and t[0] == "S":
+        return f"(list {coq_type(t[1])})"
+    if isinstance(t, tuple) and t[0] == "R":
+        return "(" + " * ".join(coq_type(x) for _, x in t[1]) + ")"
     if isinstance(t, tuple):
         if t[0] == "T":
             return "(" + " * ".join(coq_type(x) for x in t[1:]) + ")"
@@ -84,11 +94,13 @@ def coq_type(t) -> str:
 def parse_type(s: str):
     """'Q', 'O(Q)', 'L(L(Q))', 'T(Q,Q)' -> type"""
     s = s.strip()
-    for atom in (Q, Z, N, B, G, U, ID, FSTR, KSET, SEG, BUF, SHP):
+    for atom in (Q, Z, N, B, G, U, ID, FSTR, KSET, SEG, BUF, SHP, TAG, OBJ, FNAME):
         if s == atom:
             return atom
+    if s.startswith("R{") and s.endswith("}"):  # record: R{tag:Tag;score:Q}
+        return ("R", tuple((f.split(":")[0].strip(), parse_type(f.split(":")[1])) for f in s[2:-1].split(";")))
     head, rest = s[0], s[1:]
-    if head in "OLT" and rest.startswith("(") and rest.endswith(")"):
+    if head in "OLTS" and rest.startswith("(") and rest.endswith(")"):
         inner = rest[1:-1]
         parts, depth, cur = [], 0, ""
         for ch in inner:
@@ -107,6 +119,8 @@ def parse_type(s: str):
             return O(ps[0])
         if head == "L":
             return L(ps[0])
+        if head == "S":
+            return ("S", ps[0])
         return T(*ps)
     raise Unsupported(f"type text {s!r}")
 
@@ -140,6 +154,7 @@ def qlit(v) -> str:
 COQ_RESERVED = {
     "end", "at", "as", "in", "if", "then", "else", "fun", "let", "match", "with", "return", "fix", "cofix", "forall", "exists",
     "Type", "Set", "Prop", "where", "using", "for", "struct", "IF", "mod", "bind", "sbind", "fuel", "Ok", "Err", "Some", "None",
+    "geom", "pt", "shp", "bounds", "res", "list", "option", "nat", "bool", "unit", "fname",
     "true", "false", "tt", "rev", "pymax", "pymin", "qltb", "qleb", "qeqb", "idx", "map", "nth", "length", "fst", "snd", "id",
 }
 
@@ -262,6 +277,7 @@ class Fn:
 
     def __init__(self, node: ast.FunctionDef, iface: dict, coq_name: str, ctx: "Ctx | None" = None):
         self.ctx = ctx
+        self.fold_k = []
         self.params = []
         self.param_defaults = {}
         import copy
@@ -357,6 +373,20 @@ class Fn:
             consts = self.iface.get("consts", {})
             if p and p in consts:
                 return consts[p][0], parse_type(consts[p][1])
+            try:
+                bt, bty = sub(e.value)
+            except Unsupported:
+                raise Unsupported(f"attribute {p or ast.dump(e)}")
+            if bty == OBJ and e.attr == "uuid":
+                return bt, Z
+            if bty == SHP and e.attr == "bounds":  # shapely: (minx, miny, maxx, maxy); an empty shape has no bounds
+                if pure:
+                    raise Unsupported("bounds in a position that cannot fail")
+                name = self.gensym("bounds")
+                hoist.append((name, f"py_shp_bounds {bt}", T(Q, Q, Q, Q)))
+                return name, T(Q, Q, Q, Q)
+            if bty == SHP and e.attr == "geoms":
+                return f"(shp_geoms {bt})", L(U)
             raise Unsupported(f"attribute {p or ast.dump(e)}")
         if isinstance(e, ast.UnaryOp):
             if isinstance(e.op, ast.Not):
@@ -432,6 +462,13 @@ class Fn:
             if any(ty != ty0 for _, ty in xs):
                 raise Unsupported("heterogeneous list display")
             return "[" + "; ".join(t for t, _ in xs) + "]", L(ty0)
+        if isinstance(e, ast.Subscript) and isinstance(e.value, ast.Name) and isinstance(e.slice, ast.Constant) and isinstance(e.slice.value, str):
+            key = f"{e.value.id}.{e.slice.value}"  # d["k"] on a parameter declared field by field
+            if key in env:
+                return env[key]
+            raise Unsupported(f"key {key}")
+        if isinstance(e, (ast.ListComp, ast.SetComp)):
+            return self.comprehension(e, env, hoist)
         if isinstance(e, ast.Subscript):
             v, tv = sub(e.value)
             s = e.slice
@@ -489,6 +526,48 @@ class Fn:
             return f"(if {c} then {a} else {b})", ta
         raise Unsupported(f"expression {type(e).__name__}")
 
+    def comprehension(self, e, env, hoist):
+        """[elt for x in L if cond] -> flat_map; {…} additionally deduplicated (py_set). Elements: identifiers (Z)."""
+        if len(e.generators) != 1 or e.generators[0].is_async:
+            raise Unsupported("comprehension with several generators")
+        g = e.generators[0]
+        it, tit = self.expr(g.iter, env, hoist)
+        if not (isinstance(tit, tuple) and tit[0] == "L"):
+            raise Unsupported("comprehension over something else than a list (the iteration order of a set is not modelled)")
+        env2 = dict(env)
+        binder, opening, closing = self.bind_target(g.target, tit[1], env2)
+        if opening:
+            raise Unsupported("comprehension target unpacking a list")
+        narrowed = []
+        conds = []
+        for c in g.ifs:
+            # `X is not None` on an optional attribute path narrows X inside the element expression
+            if isinstance(c, ast.Compare) and len(c.ops) == 1 and isinstance(c.ops[0], ast.IsNot) and isinstance(c.comparators[0], ast.Constant) and c.comparators[0].value is None:
+                p = self.attr_path(c.left) if isinstance(c.left, ast.Attribute) else (c.left.id if isinstance(c.left, ast.Name) else None)
+                if p in env2 and isinstance(env2[p][1], tuple) and env2[p][1][0] == "O":
+                    v = env2[p][0] + "_v"
+                    narrowed.append((env2[p][0], v))
+                    env2[p] = (v, env2[p][1][1])
+                    continue
+            t, ty = self.expr(c, env2, [], True)
+            if ty != B:
+                raise Unsupported("comprehension condition")
+            conds.append(t)
+        elt, tel = self.expr(e.elt, env2, [], True)
+        if tel == LIT:
+            elt, tel = qlit(elt), Q
+        body = f"[{elt}]"
+        if conds:
+            body = f"if {' && '.join(conds)} then {body} else []"
+        for outer, v in reversed(narrowed):
+            body = f"match {outer} with Some {v} => {body} | None => [] end"
+        txt = f"(flat_map (fun {binder} => {body}) {it})"
+        if isinstance(e, ast.SetComp):
+            if tel != Z:
+                raise Unsupported("set of something else than identifiers")
+            return f"(py_set {txt})", ("S", Z)
+        return txt, L(tel)
+
     def compare(self, op, l, r, env, hoist, pure):
         # None tests
         if isinstance(op, (ast.Is, ast.IsNot)):
@@ -500,6 +579,12 @@ class Fn:
             raise Unsupported("is / is not")
         a, ta = self.expr(l, env, hoist, pure)
         b, tb = self.expr(r, env, hoist, pure)
+        if isinstance(op, (ast.In, ast.NotIn)) and ta == Z and tb in (L(Z), ("S", Z)):
+            txt = f"(memz {a} {b})"
+            return txt if isinstance(op, ast.In) else f"(negb {txt})"
+        if isinstance(op, (ast.Eq, ast.NotEq)) and ta == ("S", Z) and tb == ("S", Z):
+            txt = f"(set_eqz {a} {b})"
+            return txt if isinstance(op, ast.Eq) else f"(negb {txt})"
         if isinstance(op, (ast.In, ast.NotIn)):
             if ta == "Gtype" and tb == KSET:
                 txt = f"(type_in {a} {b})"
@@ -537,9 +622,14 @@ class Fn:
             return f"(qabs {self.coerce(a, ta, Q)})", Q
         if fname == "len" and len(e.args) == 1:
             a, ta = self.expr(e.args[0], env, hoist, pure)
-            if not (isinstance(ta, tuple) and ta[0] == "L"):
+            if not (isinstance(ta, tuple) and ta[0] in ("L", "S")):
                 raise Unsupported("len of non-list")
             return f"(py_len {a})", Z
+        if fname == "set" and len(e.args) == 1 and not e.keywords:
+            a, ta = self.expr(e.args[0], env, hoist, pure)
+            if ta not in (L(Z), ("S", Z)):
+                raise Unsupported("set() of something else than a list of identifiers")
+            return f"(py_set {a})", ("S", Z)
         if fname in ("any", "all") and len(e.args) == 1 and isinstance(e.args[0], ast.GeneratorExp):
             g = e.args[0]
             if len(g.generators) != 1 or g.generators[0].ifs or not isinstance(g.generators[0].target, ast.Name):
@@ -655,6 +745,9 @@ class Fn:
             elif isinstance(t, (ast.Tuple, ast.List)):
                 for x in t.elts:
                     tgt(x)
+            elif isinstance(t, ast.Subscript) and isinstance(t.value, ast.Name):
+                if t.value.id not in out:
+                    out.append(t.value.id)
             else:
                 raise Unsupported("assignment target")
 
@@ -716,18 +809,27 @@ class Fn:
                 return f"Some (Err {ERRCLASS[name]})"
             return f"Err {ERRCLASS[name]}"
         if isinstance(s, ast.Return):
-            if mode != "fn":
+            if mode not in ("fn", "fold"):
                 raise Unsupported("return inside a loop body")
+            okr = (lambda x: f"Ok (LRet {x})") if mode == "fold" else (lambda x: f"Ok {x}")
             if s.value is None or (isinstance(s.value, ast.Constant) and s.value.value is None):
+                if isinstance(self.ret, tuple) and self.ret[0] == "O":
+                    return okr("None")
                 if self.ret != U:
                     raise Unsupported("bare return in a function that returns a value")
-                return "Ok tt"
+                return okr("tt")
             hoist = []
             t, ty = self.expr(s.value, env, hoist)
             if ty == LIT:
                 t, ty = self.coerce(t, LIT, self.ret or Q), (self.ret or Q)
             if self.ret is None:
                 self.ret = ty
+            if isinstance(self.ret, tuple) and self.ret[0] == "O" and ty == self.ret[1]:
+                t, ty = f"(Some {t})", self.ret
+            if mode == "fold":
+                if ty != self.ret:
+                    raise Unsupported(f"return type {ty}, expected {self.ret}")
+                return self.wrap(hoist, okr(t), mode)
             if ty != self.ret:
                 # a tail call whose result is already `res ret`
                 raise Unsupported(f"return type {ty}, expected {self.ret}")
@@ -741,6 +843,8 @@ class Fn:
                 raise Unsupported("break outside a generator loop")
             return "SBreak"
         if isinstance(s, ast.Continue):
+            if mode == "fold":
+                return self.fold_k[-1](env)
             if mode != "each":
                 raise Unsupported("continue")
             return "Ok tt"
@@ -763,7 +867,34 @@ class Fn:
         if isinstance(s, ast.Assign):
             if len(s.targets) != 1:
                 raise Unsupported("chained assignment")
-            return self.assign(s.targets[0], s.value, env, cont, mode)
+            tg = s.targets[0]
+            if isinstance(tg, ast.Subscript) and isinstance(tg.value, ast.Name):  # x[i] = v on a list
+                x = tg.value.id
+                if x not in env or not (isinstance(env[x][1], tuple) and env[x][1][0] == "L"):
+                    raise Unsupported("element assignment on a non-list")
+                if isinstance(tg.slice, ast.Slice):
+                    raise Unsupported("slice assignment")
+                hoist = []
+                i, ti = self.expr(tg.slice, env, hoist)
+                v, tv = self.expr(s.value, env, hoist)
+                et = env[x][1][1]
+                if tv == LIT:
+                    v, tv = self.coerce(v, LIT, et), et
+                if tv != et:
+                    raise Unsupported(f"element assignment of {tv} into list of {et}")
+                if ti == LIT:
+                    i, ti = self.coerce(i, LIT, Z), Z
+                if ti == N:
+                    setter = f"py_set_nth {env[x][0]} {i} {v}"
+                elif ti == Z:
+                    setter = f"py_set_nth_z {env[x][0]} {i} {v}"
+                else:
+                    raise Unsupported("index type in element assignment")
+                env2 = dict(env)
+                env2[x] = (x, env[x][1])
+                b = "sbind" if mode == "loop" else "bind"
+                return self.wrap(hoist, f"{b} ({setter}) (fun {x} =>\n{cont(env2)})", mode)
+            return self.assign(tg, s.value, env, cont, mode)
         if isinstance(s, ast.AugAssign):
             if not isinstance(s.target, ast.Name):
                 raise Unsupported("augmented assignment target")
@@ -778,6 +909,13 @@ class Fn:
     def assign(self, target, value, env, cont, mode):
         hoist = []
         env2 = dict(env)
+        if isinstance(target, ast.Name) and isinstance(value, (ast.Attribute, ast.Name)):
+            p = self.attr_path(value) if isinstance(value, ast.Attribute) else value.id
+            if p and p not in env and any(k.startswith(p + ".") for k in env):  # x = self.annotations: an alias of a prefix
+                for k_, v_ in env.items():
+                    if k_.startswith(p + "."):
+                        env2[target.id + k_[len(p):]] = v_
+                return cont(env2)
         if isinstance(target, ast.Name):
             t, ty = self.expr(value, env, hoist)
             if ty == LIT:
@@ -865,6 +1003,8 @@ class Fn:
             env_after = dict(env)
             for n in live:
                 env_after[n] = (n, env_b[n][1])
+            if nar and nar[0] in env_b and nar[0] not in live and env_b[nar[0]] != env.get(nar[0]):
+                env_after[nar[0]] = env_b[nar[0]]  # narrowing kept (see drop_narrow)
             return self.block(rest, env_after, k, mode)
 
         kid = self.gensym("")[1:]
@@ -878,9 +1018,13 @@ class Fn:
             envS[x] = (vname, ty[1])
             some_stmts, none_stmts = (s.body, s.orelse) if positive else (s.orelse, s.body)
 
+            some_falls, none_falls = (body_falls, else_falls) if positive else (else_falls, body_falls)
+
             def drop_narrow(env_b):  # after the branch the name has its outer meaning again unless reassigned
                 e2 = dict(env_b)
-                if e2.get(x, (None,))[0] == vname:
+                if e2.get(x, (None,))[0] == vname and not (some_falls and not none_falls):
+                    # (when the None branch never falls through — `if x is None: continue / raise / return` — what follows is
+                    #  only reached with a value, and is emitted inside the Some branch: the narrowing stays)
                     e2[x] = env[x]
                 return join_k(e2)
 
@@ -926,31 +1070,19 @@ class Fn:
         it, tit = self.expr(s.iter, env, hoist)
         if not (isinstance(tit, tuple) and tit[0] == "L"):
             raise Unsupported("for over a non-list")
-        # the body must not bind anything that is used afterwards, nor return / break
-        for n in self.assigned(s.body):
-            pass
+        state = [n for n in self.assigned(s.body) if n in env]
+        has_return = any(isinstance(x, ast.Return) for st in s.body for x in ast.walk(st))
+        if state or has_return:
+            return self.fold_for(s, rest, env, k, mode, hoist, it, tit, state)
         env2 = dict(env)
-        if isinstance(s.target, ast.Name):
+        if isinstance(s.target, ast.Name) and not (isinstance(tit[1], tuple) and tit[1][0] == "R"):
             env2[s.target.id] = (s.target.id, tit[1])
             body = self.block(s.body, env2, lambda e: "Ok tt", "each")
             fun = f"fun {s.target.id} =>\n{body}"
-        elif isinstance(s.target, ast.Tuple) and all(isinstance(x, ast.Name) for x in s.target.elts):
-            names = [x.id for x in s.target.elts]
-            et = tit[1]
-            if isinstance(et, tuple) and et[0] == "L":
-                for n in names:
-                    env2[n] = (n, et[1])
-                body = self.block(s.body, env2, lambda e: "Ok tt", "each")
-                fun = "fun item_ =>\nmatch item_ with\n| [" + "; ".join(names) + f"] =>\n{body}\n| _ => Err EValue\nend"
-            elif isinstance(et, tuple) and et[0] == "T" and len(et) - 1 == len(names):
-                for n, t in zip(names, et[1:]):
-                    env2[n] = (n, t)
-                body = self.block(s.body, env2, lambda e: "Ok tt", "each")
-                fun = "fun '(" + ", ".join(names) + f") =>\n{body}"
-            else:
-                raise Unsupported("for target unpacking")
         else:
-            raise Unsupported("for target")
+            binder, opening, closing = self.bind_target(s.target, tit[1], env2)
+            body = self.block(s.body, env2, lambda e: "Ok tt", "each")
+            fun = f"fun {binder} =>\n{opening}{body}{closing}"
         env_after = {n: v for n, v in env.items() if n not in self.assigned([s])}
         # names assigned in the loop but defined before keep their *outer* value only if the loop does not touch them
         for n in self.assigned([s]):
@@ -958,6 +1090,67 @@ class Fn:
                 raise Unsupported(f"loop assigns outer variable {n}")
         after = self.block(rest, env_after, k, mode)
         return self.wrap(hoist, f"bind (for_each {it} ({fun})) (fun _ =>\n{after})", mode)
+
+    def bind_target(self, target, et, env2):
+        """loop variable(s) of element type et -> (binder text, opening text, closing text)"""
+        if isinstance(target, ast.Name):
+            if isinstance(et, tuple) and et[0] == "R":  # a record: its fields become attribute paths of the variable
+                names = []
+                for f, ft in et[1]:
+                    cn = f"{target.id}_{f}".replace(".", "_")
+                    env2[f"{target.id}.{f}"] = (cn, ft)
+                    names.append(cn)
+                if len(names) == 1:
+                    return names[0], "", ""
+                return f"'({', '.join(names)})", "", ""
+            env2[target.id] = (target.id, et)
+            return target.id, "", ""
+        if isinstance(target, ast.Tuple) and all(isinstance(x, ast.Name) for x in target.elts):
+            names = [x.id for x in target.elts]
+            if isinstance(et, tuple) and et[0] == "L":
+                for n in names:
+                    env2[n] = (n, et[1])
+                return "item_", "match item_ with\n| [" + "; ".join(names) + "] =>\n", "\n| _ => Err EValue\nend"
+            if isinstance(et, tuple) and et[0] == "T" and len(et) - 1 == len(names):
+                for n, t in zip(names, et[1:]):
+                    env2[n] = (n, t)
+                return "'(" + ", ".join(names) + ")", "", ""
+        raise Unsupported("for target")
+
+    def fold_for(self, s, rest, env, k, mode, hoist, it, tit, state):
+        """a loop that updates variables of the enclosing scope and / or returns from the function:
+        fold_loop over the list with the updated variables as state; the body answers LDone state | LRet value"""
+        if mode not in ("fn", "fold"):
+            raise Unsupported("stateful loop in this position")
+        for n in self.assigned(s.body) + self.assigned([ast.Assign(targets=[s.target], value=ast.Constant(value=0))]):
+            pass
+        env2 = dict(env)
+        binder, opening, closing = self.bind_target(s.target, tit[1], env2)
+        st_pat = ("'(" + ", ".join(state) + ")") if len(state) > 1 else (state[0] if state else "_")
+        st_val = lambda e: ("(" + ", ".join(e[n][0] for n in state) + ")") if state else "tt"
+
+        def k_body(e):
+            for n in state:
+                if e[n][1] != env[n][1]:
+                    raise Unsupported(f"loop changes the type of {n}")
+            return f"Ok (LDone {st_val(e)})"
+
+        self.fold_k.append(k_body)
+        try:
+            body = self.block(s.body, env2, k_body, "fold")
+        finally:
+            self.fold_k.pop()
+        if self.ret is None:
+            raise Unsupported("return type not known at a loop")
+        env_after = {n: v for n, v in env.items()}
+        for n in self.assigned(s.body):
+            if n not in state:
+                env_after.pop(n, None)
+        after = self.block(rest, env_after, k, mode)
+        ret_branch = "Ok (LRet v_)" if mode == "fold" else "Ok v_"
+        st_ty = coq_type(T(*[env[n][1] for n in state])) if len(state) > 1 else (coq_type(env[state[0]][1]) if state else "unit")
+        loop = (f"fold_loop (S := {st_ty}) (R := {coq_type(self.ret)}) {it} {st_val(env)} (fun {st_pat} {binder} =>\n{opening}{body}{closing})")
+        return self.wrap(hoist, f"bind ({loop}) (fun r_ =>\nmatch r_ with\n| LRet v_ => {ret_branch}\n| LDone {st_pat} =>\n{after}\nend)", mode)
 
     # ---- whole function
     def translate(self) -> str:
@@ -975,6 +1168,11 @@ class Fn:
         for arg in allargs:
             n = arg.arg
             if n in drop:
+                for p in [p for p in attrs if p.split(".")[0] == n]:  # `self.x.y` of a method: a parameter of its own
+                    cn = p.replace(".", "_")
+                    ty = parse_type(attrs[p])
+                    env[p] = (cn, ty)
+                    params.append((cn, ty))
                 continue
             used_attr = [p for p in attrs if p.split(".")[0] == n]
             if n in iface.get("ptypes", {}):  # a helper: the types come from the call site
@@ -1019,6 +1217,7 @@ class Fn:
                 params.append((cn, ty))
         if a.kwarg and a.kwarg.arg not in drop:
             raise Unsupported("**kwargs parameter")
+        self.raw_params = list(iface.get("fparams", {}).items())
         if self.generator:
             params.insert(0, ("fuel", N))
         self.params = params
@@ -1038,7 +1237,7 @@ class Fn:
         body = self.block(list(node.body), env, off_end, "fn")
         if self.ret is None:
             raise Unsupported("no return type")
-        ps = " ".join(f"({n} : {coq_type(t)})" for n, t in params)
+        ps = " ".join([f"({n} : {t})" for n, t in getattr(self, "raw_params", [])] + [f"({n} : {coq_type(t)})" for n, t in params])
         rt = f"option (res (list {coq_type(self.ret)}))" if self.generator else f"res {coq_type(self.ret)}"
         return f"Definition {self.coq_name} {ps} : {rt} :=\n{body}."
 
@@ -1285,6 +1484,95 @@ def generate(src_root: Path) -> tuple[str, dict]:
           "calls": {"uuid.uuid5": {"coq": "py_uuid5", "args": ["Z", "F"], "ret": "Id"},
                     "data.Clip": {"coq": "mk_Clip", "args": ["Id", "Q", "Q"], "argnames": ["uuid", "start_time", "end_time"], "ignore_kw": ["recording"], "ret": "Seg", "monadic": True}}},
          "Definition segment_clip (fuel : nat) (clip_uuid : Z) (clip_start_time clip_end_time duration : Q) (hop : option Q) (include_incomplete : bool) : option (res (list segclip)) := None.")
+    # ---- C19: the three encodings over an encoder given by its `encode` function and `num_classes`
+    enc = {"encoder.encode": {"coq": "encoder_encode", "args": ["Tag"], "ret": "O(N)"}}
+    fp = {"encoder_encode": "tag -> option nat"}
+    unit("classification_encoding", "evaluation/encoding.py", "classification_encoding",
+         {"params": {"tags": "L(Tag)"}, "drop_params": ["encoder"], "fparams": fp, "calls": enc, "ret": "O(N)"})
+    unit("multilabel_encoding", "evaluation/encoding.py", "multilabel_encoding",
+         {"params": {"tags": "L(Tag)"}, "attrs": {"encoder.num_classes": "N"}, "fparams": fp, "ret": "L(Z)",
+          "calls": dict(enc, **{"np.zeros": {"coq": "zeros_z", "args": ["N"], "ignore_kw": ["dtype"], "ret": "L(Z)"}})})
+    unit("prediction_encoding", "evaluation/encoding.py", "prediction_encoding",
+         {"params": {"tags": "L(R{tag:Tag;score:Q})"}, "attrs": {"encoder.num_classes": "N"}, "fparams": fp, "ret": "L(Q)",
+          "calls": dict(enc, **{"np.zeros": {"coq": "zeros_q", "args": ["N"], "ignore_kw": ["dtype"], "ret": "L(Q)"}})})
+
+    # ---- C04: the relational validators (objects are represented by their uuid)
+    ce = {"attrs": {"self.annotations.clip.uuid": "Z", "self.predictions.clip.uuid": "Z", "self.annotations.sound_events": "L(Obj)",
+                    "self.predictions.sound_events": "L(Obj)", "self.matches": "L(R{source:O(Obj);target:O(Obj)})"},
+          "consts": {"self": ("tt", "U")}, "ret": "U"}
+    unit("ClipEvaluation__check_clips_match", "data/clip_evaluations.py", "ClipEvaluation._check_clips_match", ce)
+    unit("ClipEvaluation__check_matches", "data/clip_evaluations.py", "ClipEvaluation._check_matches", ce)
+    unit("AnnotationProject__annotations_are_part_of_the_project", "data/annotation_projects.py",
+         "AnnotationProject._annotations_are_part_of_the_project",
+         {"attrs": {"self.tasks": "L(R{clip.uuid:Z})", "self.clip_annotations": "L(R{clip.uuid:Z;uuid:Z})"}, "consts": {"self": ("tt", "U")}, "ret": "U"})
+    unit("Clip__validate_times", "data/clips.py", "Clip._validate_times",
+         {"attrs": {"values.start_time": "Q", "values.end_time": "Q"}, "consts": {"values": ("tt", "U")}, "ret": "U"})
+
+    # ---- C05: compute_geometric_features: the nine per-type functions and the dispatch table
+    rel = "geometry/features.py"
+    TERMS = {"terms.duration": ("Duration", "Fname"), "terms.low_freq": ("LowFreq", "Fname"), "terms.high_freq": ("HighFreq", "Fname"),
+             "terms.bandwidth": ("Bandwidth", "Fname"), "terms.num_segments": ("NumSegments", "Fname")}
+    fcalls = {"Feature": {"coq": "mk_feature", "args": ["Fname", "Q"], "argnames": ["term", "value"], "ret": "T(Fname,Q)"},
+              "geometry_to_shapely": {"coq": "to_shapely", "args": ["G"], "ret": "Shp"}}
+    COORD = {"TimeStamp": "Q", "TimeInterval": "T(Q,Q)", "BoundingBox": "T(Q,Q,Q,Q)"}
+    ARGS = {"TimeStamp": ("TimeStamp t", "t"), "TimeInterval": ("TimeInterval s e", "(s, e)"), "BoundingBox": ("BBox s lo e hi", "(s, lo, e, hi)"),
+            "Point": ("Point _ _", None), "LineString": ("LineString _", None), "Polygon": ("Polygon _", None), "MultiPoint": ("MultiPoint _", None),
+            "MultiLineString": ("MultiLineString _", None), "MultiPolygon": ("MultiPolygon _", None)}
+    try:
+        ft = tree(rel)
+        table = None
+        for n in ft.body:
+            tgt = n.target if isinstance(n, ast.AnnAssign) else (n.targets[0] if isinstance(n, ast.Assign) and len(n.targets) == 1 else None)
+            if isinstance(tgt, ast.Name) and tgt.id == "_COMPUTE_FEATURES" and isinstance(n.value, ast.Dict):
+                table = n.value
+        if table is None:
+            raise Unsupported("_COMPUTE_FEATURES is not a dict display")
+        main = find_function(ft, "compute_geometric_features")
+        mb = [x for x in main.body if not (isinstance(x, ast.Expr) and isinstance(x.value, ast.Constant))]
+        want = "try:\n    return _COMPUTE_FEATURES[geometry.type](geometry)\nexcept KeyError as error:\n    raise NotImplementedError(f'Geometry type {geometry.type} is not supported.') from error"
+        if len(mb) != 1 or ast.unparse(mb[0]) != want:
+            raise Unsupported("compute_geometric_features is not the plain table lookup")
+        defs, arms, seen = [], [], {}
+        for kx, vx in zip(table.keys, table.values):
+            cls_ = None
+            for c, _t, _ in GEOM_CLASSES:
+                if kx is not None and ast.unparse(kx) == f"geometries.{c}.geom_type()":
+                    cls_ = c
+            if cls_ is None or not isinstance(vx, ast.Name):
+                raise Unsupported(f"table entry {ast.unparse(kx) if kx is not None else '**'}")
+            fnode = find_function(ft, vx.id)
+            ann = ast.unparse(fnode.args.args[0].annotation).split(".")[-1] if fnode.args.args and fnode.args.args[0].annotation is not None else None
+            pname = fnode.args.args[0].arg
+            if ann != cls_:
+                raise Unsupported(f"{vx.id} is registered for {cls_} but takes a {ann}")
+            iface = {"calls": fcalls, "consts": TERMS, "ret": "L(T(Fname,Q))"}
+            if ann in COORD:
+                if pname == "_":
+                    iface["drop_params"] = ["_"]
+                    uses = False
+                else:
+                    iface["attrs"] = {f"{pname}.coordinates": COORD[ann]}
+                    uses = True
+                arg = (ARGS[cls_][1] if uses else "")
+            else:
+                iface["params"] = {pname: "G"}
+                arg = "g"
+            cname = "features" + vx.id
+            if vx.id not in seen:
+                ctx = Ctx(src_root, rel, ft, None, cname, TERMS, tree)
+                t_ = Fn(fnode, iface, cname, ctx).translate()
+                defs.extend(ctx.emitted + [t_])
+                seen[vx.id] = True
+            arms.append(f"| {ARGS[cls_][0]} => {cname} {arg}".rstrip())
+        for c in ARGS:  # a class missing from the table: KeyError -> NotImplementedError
+            if not any(a.startswith(f"| {ARGS[c][0]} ") for a in arms):
+                arms.append(f"| {ARGS[c][0]} => Err ENotImpl")
+        defs.append("Definition compute_geometric_features (g : geom) : res (list (fname * Q)) :=\nmatch g with\n" + "\n".join(arms) + "\nend.")
+        report["units"]["compute_geometric_features"] = "translated"
+        emit("compute_geometric_features", "\n".join(defs), f"(* from soundevent/{rel} :: the nine per-type functions and the table _COMPUTE_FEATURES *)")
+    except (Unsupported, OSError, SyntaxError, KeyError, IndexError, AttributeError, TypeError, ValueError, RecursionError) as ex:
+        fall_back("compute_geometric_features", ex)
+
     body = "\n".join(out) + "\n"
     names = re.findall(r"^Definition ([A-Za-z0-9_']+)", body, flags=re.M)
     body += "\n(* every definition above can be unfolded by `autounfold with src` (used by the Gen proofs, so that\n   they do not depend on how the source is split into helper functions) *)\nCreate HintDb src.\n#[export] Hint Unfold " + " ".join(names) + " : src.\n"
